@@ -63,8 +63,9 @@ type Cluster struct {
 	blocked   map[[2]uint64]bool
 	stopped   bool
 	envStrict bool
-	nested    bool // inside a composite operation (heal): nested operations are not logged
-	trBytes   int  // bytes of trace written so far
+	nested    bool                     // inside a composite operation (heal): nested operations are not logged
+	trBytes   int                      // bytes of trace written so far
+	lastSnap  map[uint64][]*pb.Message // the MsgSnaps delivered to each node, oldest first (for late duplicates)
 	overrun   string
 }
 
@@ -188,6 +189,29 @@ func (c *Cluster) deliver(k int, keep bool) {
 	if c.blocked[[2]uint64{m.GetFrom(), m.GetTo()}] {
 		return
 	}
+	if m.GetType() == pb.MsgSnap {
+		if c.lastSnap == nil {
+			c.lastSnap = map[uint64][]*pb.Message{}
+		}
+		c.lastSnap[dst.id] = append(c.lastSnap[dst.id], proto.Clone(m).(*pb.Message))
+	}
+	c.mon.beforeStep(dst, m)
+	dst.step(m)
+	c.mon.afterOp(dst, "step")
+}
+
+// resnap delivers a duplicate of the MsgSnap that was delivered to dst [back] snapshots ago
+// (0: the last one).
+func (c *Cluster) resnap(dst *Node, back int) {
+	h := c.lastSnap[dst.id]
+	if back >= len(h) {
+		return
+	}
+	m := h[len(h)-1-back]
+	if !dst.alive || c.blocked[[2]uint64{m.GetFrom(), m.GetTo()}] || c.holdSnap(dst) {
+		return
+	}
+	m = proto.Clone(m).(*pb.Message)
 	c.mon.beforeStep(dst, m)
 	dst.step(m)
 	c.mon.afterOp(dst, "step")
